@@ -117,6 +117,14 @@ def gen_T12():
     need("'%s!%s@%s' % (nick, ident, host)" in ast.unparse(find_def(iu2, 'joinHostmask')), 'joinHostmask changed')
     sh = ast.unparse(find_def(iu2, 'splitHostmask'))
     need("rest, host = hostmask.rsplit('@', 1)" in sh and "nick, user = rest.rsplit('!', 1)" in sh, 'splitHostmask changed')
+    # ---- safeArgument comes first in the length-checked branch of reply(); its definition ----
+    need("else:\n                s = ircutils.safeArgument(s)\n                allowedLength = conf.get(conf.supybot.reply.mores.length, "
+         in ast.unparse(reply), 'reply: `s = ircutils.safeArgument(s)` must be the first statement of the length-checked branch')
+    iu3 = tree('src/ircutils.py')
+    need("return '\\r' not in s and '\\n' not in s and ('\\x00' not in s)" in ast.unparse(find_def(iu3, 'isValidArgument')),
+         'isValidArgument changed: ' + ast.unparse(find_def(iu3, 'isValidArgument'))[-80:])
+    need('if isValidArgument(s):\n        return s\n    else:\n        return repr(s)' in ast.unparse(find_def(iu3, 'safeArgument')),
+         'safeArgument changed')
     # ---- utils/str.py ----
     u = tree('src/utils/str.py')
     sb = find_def(u, 'splitBytes')
